@@ -53,6 +53,7 @@ func init() {
 			c.ruleReadFull("R-READFULL", "pkg/scale")
 			c.ruleAlloc("R-ALLOC", 1<<17, "pkg/scale")
 			c.ruleLenSign("pkg/scale")
+			c.ruleLenConv("pkg/scale")
 			c.ruleFrameBound()
 			c.ruleDecodeCopy()
 			c.min("R-FRAMEBOUND", 1)
